@@ -152,8 +152,10 @@ impl<'a> Lexer<'a> {
         let mut pos = self.skip_whitespace(self.pos)?;
         while self.buf.get(pos) == Some(&b'%') {
             pos += 1;
-            if let Some(off) = self.buf[pos..].iter().position(|&b| b == b'\n') {
+            if let Some(off) = self.buf[pos..].iter().position(|&b| b == b'\n' || b == b'\r') {
                 pos += off+1;
+            } else {
+                pos = self.buf.len();
             }
             
             // Move away from eventual whitespace
